@@ -25,6 +25,11 @@ type Scn struct {
 	// not make the check non-exhaustive.
 	Unbounded    bool
 	UnboundedCap time.Duration
+	// NoCache switches the happens-before cache off: every schedule within the bound is run to its end and
+	// judged. For scenarios whose point is data handed between goroutines through memory the race detector
+	// does not instrument (slice elements): two schedules with the same happens-before relation can then
+	// differ in what they put on the wire.
+	NoCache bool
 	// Run executes the scenario once on a fresh world and judges it.
 	Run func(ch vrt.Chooser, trace bool) *ScnResult
 }
@@ -221,7 +226,7 @@ func scnFamily(s string) string {
 // statistics and violations. It returns false if the budget expired.
 func exploreScn(c *harness.Ctx, prop string, s *Scn) bool {
 	var lastDetails map[string]any
-	x := &vrt.Explorer{Bound: s.Bound, Deadline: c.Deadline}
+	x := &vrt.Explorer{Bound: s.Bound, Deadline: c.Deadline, NoCache: s.NoCache}
 	if s.Unbounded {
 		x.Unbounded = true
 		capd := s.UnboundedCap
@@ -326,7 +331,7 @@ func scnReplay(prop string, lookup func(name string) *Scn) func(c *harness.Ctx, 
 			// debugging aid: explore the named scenario up to the given bound instead of replaying one schedule
 			var bound int
 			fmt.Sscanf(bs, "%d", &bound)
-			x := &vrt.Explorer{Bound: bound}
+			x := &vrt.Explorer{Bound: bound, NoCache: s.NoCache}
 			x.Run = func(ch vrt.Chooser, trace bool) *vrt.Result { return s.Run(ch, trace).R }
 			f := x.Explore()
 			fmt.Printf("explored %s: bound %d, %d executions, %d states, %d outcomes, max choice points %d\n", r.Scenario, x.Stats.BoundDone, x.Stats.Executions, x.Stats.States, len(x.Stats.Outcomes), x.Stats.MaxPoints)
